@@ -162,7 +162,12 @@ def gen_cases(ctx):
     n = ctx.n(400, 5000)
     for i in range(n):
         rng = ctx.rng("dense", i)
-        yield gen_dense(rng, ctx.thorough)
+        inp = gen_dense(rng, ctx.thorough)
+        if i % 3 == 2 and inp.get("entry") == "link_iter":
+            # a Linker object driven directly (init_level / next_level), half of them a SUBCLASS on which
+            # the size limit is configured while Linker itself keeps its default
+            inp["linker_reuse"] = True
+        yield inp
     for i in range(ctx.n(80, 1000)):
         yield gen_numbacap(ctx.rng("numbacap", i), ctx.thorough)
 
@@ -174,15 +179,10 @@ def acfg_tokens(inp):
 
 
 def run_adaptive_impl(inp, adaptive=True):
-    import trackpy.linking.linking as L
-    old = L.Linker.MAX_SUB_NET_SIZE_ADAPTIVE
-    L.Linker.MAX_SUB_NET_SIZE_ADAPTIVE = inp["maxa"]
-    try:
+    with linkcommon.size_limits(inp, MAX_SUB_NET_SIZE_ADAPTIVE=inp["maxa"]):
         extra = dict(adaptive_stop=inp["stop8"] / 8.0, adaptive_step=inp["step"][0] / inp["step"][1]) \
             if adaptive else None
         return linkcommon.run_impl(inp, extra_kwargs=extra)
-    finally:
-        L.Linker.MAX_SUB_NET_SIZE_ADAPTIVE = old
 
 
 # ---------------------------------------------------------------------------------------------
@@ -375,13 +375,8 @@ def run_case(ctx, inp):
         if v == "ok" and red == 0 and not raised:
             plain = None
             try:
-                import trackpy.linking.linking as L
-                old = L.Linker.MAX_SUB_NET_SIZE
-                L.Linker.MAX_SUB_NET_SIZE = inp["maxa"]
-                try:
+                with linkcommon.size_limits(inp, MAX_SUB_NET_SIZE=inp["maxa"]):
                     plain = linkcommon.run_impl(inp)
-                finally:
-                    L.Linker.MAX_SUB_NET_SIZE = old
             except Exception:
                 plain = None
             if plain and not any(l[2] is None for l in plain):
